@@ -16,6 +16,7 @@ Campaigns (JSON specs, ``vf.dslx`` ASTs):
               SQL from the caching parser must equal SQL from the same parser with ``generate_feature`` un-cached.
 ``enumerate_extra``: all pairs of a fixed pool of small features, sources, schemas and kinds.
 """
+import json
 import pickle
 
 from sqlalchemy import sql
@@ -209,13 +210,39 @@ def _diff(a, b, out):
     out.add('attr')
 
 
+def _normalise(node):
+    """Copy of a spec node with every literal replaced by the representative of its hash-collision class."""
+    if isinstance(node, dict):
+        if node.get('f') == 'lit':
+            twin = S._twin(node['kind'], node['v'])  # pylint: disable=protected-access
+            if twin is not None and repr(twin) < repr(node['v']):
+                return dict(node, v=twin)
+            return node
+        return {k: _normalise(v) for k, v in node.items()}
+    if isinstance(node, list):
+        return [_normalise(v) for v in node]
+    return node
+
+
+def twins_within(stmt) -> bool:
+    """The statement itself contains two different sub-structures that differ only by hash-colliding literals (forml
+    then confuses them with each other *inside* the one statement)."""
+    groups = {}
+    for node in A.walk(stmt):
+        groups.setdefault(json.dumps(_normalise(node), sort_keys=True), set()).add(json.dumps(node, sort_keys=True))
+    return any(len(g) > 1 for g in groups.values())
+
+
 def trigger_tags(a, b, fallback):
-    """Root-cause classes when the two specs differ *only* in such places, else those plus the fallback label."""
+    """Root-cause classes when the two specs differ *only* in such places, else those plus the fallback label (which
+    is replaced by ``twins-within`` when a statement carries colliding twins in itself)."""
     found = set()
     _diff(a, b, found)
     roots = sorted(found & set(_ROOT_CAUSES))
     if found and found <= set(_ROOT_CAUSES):
         return roots
+    if (A.is_source(a) and twins_within(a)) or (A.is_source(b) and twins_within(b)):
+        return roots + ['twins-within']
     return roots + [fallback]
 
 
@@ -290,7 +317,7 @@ def check_pair(ctx, spec):
     alone_a, err_a = _try(lambda: _compiled(_reader()._parse_statement(sa)))  # pylint: disable=protected-access
     bad = _member_mismatch(sa)
     if bad is not None:
-        ctx.fail(spec, 'member-access', 'own-member-wrong', f'{bad[0]!r}[{bad[1]}] -> {bad[2]!r}', [])
+        ctx.fail(spec, 'member-access', 'own-member-wrong', f'{bad[0]!r}[{bad[1]}] -> {bad[2]!r}', ['twins-within'] if twins_within(a) else [])
     sb = build.build_statement(b)[0]
     if canon(sb) != cb:  # item access on a reference of b handed out an element of a's (equal-hashing) reference
         ctx.fail(spec, 'build-after-other', 'structure-differs', f'b built after a was used: {canon(sb)} ; b built alone: {cb}', trig)
